@@ -59,6 +59,8 @@ _FAM = [
     _e("c09_rep_chunked", _RPC + _CH + " | '1;a=\"' b b b '\" CRLF X CRLF 0 CRLF CRLF' | '1 CRLF X CRLF' h 'CRLF CRLF' | b 'fffffffffffffff' b 'CRLF X'; "
        "'HTTP/1.1 200 OK CRLF Transfer-Encoding:' b 'chunked' b 'CRLF CRLF 0 CRLF CRLF'" + _B + _R1 + _SV + _DQ, "as quick" + _SV + _DT,
        ("reply-accepted", "body-done", "body-bad", "reply-header-rejected", "truncated")),
+    _e("c09_req_long_host", "'GET / HTTP/1.1 CRLF Host: ' + a Host value of 1021..1026 bytes ('a'..., last byte b) + CRLF CRLF in one piece: the sizes around the 1024-byte static buffer of Http1::Parser::getHostHeaderField()" + _B + _R1 + _CL,
+       "as quick" + _CL, ("request-accepted", "request-refused")),
 ]
 SPEC = dict(
     harness="C09_peers.cc", units=_U,
